@@ -150,6 +150,16 @@ Section Arithmetic.
   Definition expect (f : list E -> E) (c : pmeasure E) : option E :=
     expectation f (positions c) (weights c).
 
+  (* measures.expected_variance (second moment about the weighted mean), same zero-weight skip *)
+  Definition expected_variance (f : list E -> E) (xs : list (list E)) (ws : list E) : option E :=
+    let kept := filter (fun p => nonzero (snd p)) (combine xs ws) in
+    let tot := nsum N (map snd kept) in
+    if eqb N tot (zero N) then None
+    else let m := div N (nsum N (map (fun p => mul N (f (fst p)) (snd p)) kept)) tot in
+         Some (div N (nsum N (map (fun p => mul N (mul N (sub N (f (fst p)) m) (sub N (f (fst p)) m)) (snd p)) kept)) tot).
+  Definition expect_var (f : list E -> E) (c : pmeasure E) : option E :=
+    expected_variance f (positions c) (weights c).
+
   (* product_measure.pof: total weight of the points where f <= 0 *)
   Definition pof (f : list E -> E) (c : pmeasure E) : E :=
     nsum N (map snd (filter (fun p => leb N (f (fst p)) (zero N)) (combine (positions c) (weights c)))).
